@@ -168,6 +168,10 @@ def run(cx):
     allowed = {T + 'TBS::new', "<hickory_proto::dnssec::tbs::TBS as core::convert::From<&'a [u8]>>::from", '<hickory_proto::dnssec::tbs::TBS as core::clone::Clone>::clone'}
     cx.check('C05.T2', cons <= allowed, T + 'TBS', 'writers', 'TBS-constructors', ', '.join(sorted(cons - allowed)) or 'as reviewed')
 
+    # ---------------------------------------------------------------- H helper semantics the guards above rely on (rules/helpers.py)
+    helpers.check(cx, 'C05.H', ['Name::trim_to', 'Name::is_root', 'Name::is_wildcard'])
+
+
 
 def check_policy_table(cx, rule, compress_only=False):
     """RDATA name policy per type (shared with C02.T2)"""
@@ -235,6 +239,3 @@ def check_policy_table(cx, rule, compress_only=False):
     for g in si:
         uses = cx.calls(g, r'Name::num_labels$')
         cx.check('C05.S3', len(uses) >= 1, g.path, 'calls', 'signer-labels-field-from-num_labels', str(len(uses)))
-
-    # ---------------------------------------------------------------- H helper semantics the guards above rely on (rules/helpers.py)
-    helpers.check(cx, 'C05.H', ['Name::trim_to', 'Name::is_root', 'Name::is_wildcard'])
